@@ -113,7 +113,7 @@ pub fn read_symbol(scanner: &mut Scanner) -> Result<BracketSymbol, Error> {
                 Some('a') => element(Element::Ga, scanner),
                 Some('d') => element(Element::Gd, scanner),
                 Some('e') => element(Element::Ge, scanner),
-                _ => Ok(BracketSymbol::Element(Element::F))
+                _ => Err(missing_character(scanner))
             }
         },
         Some('H') => {
